@@ -32,13 +32,20 @@ pub fn table_counts(t: &DrawTable) -> Vec<(u64, u8)> {
 
 /// run the real search with the clock expiring at query `expire_at`
 pub fn run_search(board: &BoardState, table: &DrawTable, expire_at: u64, stop_at_depth: Option<u32>, node_cap: u64) -> SbRun {
+    run_search_with_allowance(board, table, expire_at, stop_at_depth, node_cap, BIG_MS)
+}
+
+/// the same with an explicit allowance (ms). With `expire_at = u64::MAX` the clock never
+/// passes any allowance >= 1 ms within a bounded run, so allowances of any magnitude (2^63,
+/// 2^64 + n, u128::MAX) are "never expires" and must all report the same sequence.
+pub fn run_search_with_allowance(board: &BoardState, table: &DrawTable, expire_at: u64, stop_at_depth: Option<u32>, node_cap: u64, allowance_ms: u128) -> SbRun {
     seam::install_panic_hook();
     let (tx, rx) = mpsc::channel::<BoardState>();
     let mut t = table.clone();
     let prev = seam::install(Ctx::Scripted(Scripted { expire_at, queries: 0, nodes: 0, lines: vec![], sends: vec![], stop_at_depth, node_cap }));
     let start = Instant(0);
     let res = std::panic::catch_unwind(std::panic::AssertUnwindSafe(|| {
-        get_best_move(board, &mut t, start, BIG_MS, &tx);
+        get_best_move(board, &mut t, start, allowance_ms, &tx);
     }));
     let ctx = seam::install(prev);
     let s = match ctx {
